@@ -78,6 +78,9 @@ class D(operator.Operator):
             bmatT = bmatL
         else:
             shift = xp.asarray(self.k * sm.kvalue)
+            if common.isscalar(self.k) and kdim > 1:
+                # a scalar gradient is along the first axis (as a scalar shift)
+                shift = shift * xp.asarray([1] + [0] * (kdim - 1))
             bmatL = compute_bmatrix(self.tau, sm.k)
             bmatT = compute_bmatrix(self.tau, sm.k - shift, sm.k)
 
